@@ -503,6 +503,7 @@ theorem getDependentProducts_topo_unfold {db : Db} {fuel : Nat} {top : Prod} {cc
         | none => e)) := by
   unfold getDependentProducts at h
   simp only [hm, Bool.false_eq_true, if_false] at h
+  unfold finishListing at h
   cases h1 : listing db fuel [] top with
   | none => simp [h1] at h
   | some r1 =>
